@@ -260,9 +260,12 @@ def check(case):
         if c["post"] != "absent":
             options["post_commit_hook"] = fv.install_hook("post-hook")
             env_extra["FAKEVCS_HOOK_POST_EXIT"] = "1" if c["post"] == "fails" else "0"
-        spec = {"current_version": OLD, "version_pattern": "MAJOR.MINOR.PATCH", "options": options, "files": [["a.txt", ["v={version};"]]]}
+        # outside the scope part the config lags behind the newest tag (1.2.2 < 1.2.3): the version the update starts from,
+        # and the one the hooks must be told, is the tag's
+        cfg_version = OLD if c.get("scope") else "1.2.2"
+        spec = {"current_version": cfg_version, "version_pattern": "MAJOR.MINOR.PATCH", "options": options, "files": [["a.txt", ["v={version};"]]]}
         projgen.write_file(tmp, "bumpver.toml", projgen.toml_config(spec))
-        projgen.write_file(tmp, "a.txt", "v=1.2.3;\n")
+        projgen.write_file(tmp, "a.txt", "v=%s;\n" % cfg_version)
         projgen.write_file(tmp, "other.txt", "unrelated\n")
         fv.set("status", {"clean": "", "unrelated-dirty": "M  other.txt\n", "pattern-file-dirty": "M  a.txt\n"}[c["tree"]])
         fv.set("tags_all", "1.2.0\n1.2.3\nnot-a-version\n" if c["vcs"] == "git" else "tip   5:abc\n1.2.3   4:def\n1.2.0   2:aaa\n")
